@@ -138,6 +138,31 @@ class Env(object):
     def zero(self, name, a, **meta):
         self.obls.append(Obl("equal", name, a, 0, meta))
 
+    def check(self, name, ok, detail=""):
+        """a concrete fact that must hold on every feasible path (types, shapes, registry contents)"""
+        self.obls.append(Obl("fact", name, bool(ok), None, {"detail": str(detail)}))
+
+    def attempt(self, name, thunk, expect=None):
+        """run thunk(); obligation: it returns (expect=None) or raises `expect`.  Returns (ok, value).
+        Only Exception subclasses are caught (path-steering exceptions are not)."""
+        try:
+            v = thunk()
+        except (OutsideDomain, sym.InfeasiblePath, sym.PathLimit):
+            raise
+        except Exception as e:   # noqa
+            good = expect is not None and isinstance(e, expect)
+            self.obls.append(Obl("fact", name, good, None,
+                                 {"detail": "raised %s: %s" % (type(e).__name__, str(e)[:200])}))
+            return False, e
+        good = expect is None
+        self.obls.append(Obl("fact", name, good, None,
+                             {"detail": "returned" if good else "returned instead of raising %s" % expect.__name__}))
+        return True, v
+
+
+def _fact_methods():
+    pass
+
 
 def _e(x):
     if isinstance(x, np.ndarray):
@@ -248,6 +273,16 @@ def run_symbolic(h, mods, cfg, timeout_ms=20000, max_paths=64, label=""):
         t_solver += dtr
         recs.append(Record(kind="reach", name=label + "/reach", path=pid, verdict=vr, t=dtr))
         for ob in env.obls:
+            if ob.kind == "fact":
+                rec = Record(kind="fact", name=label + "/" + ob.name, path=pid, verdict="unsat" if ob.got else "sat",
+                             t=0.0, size=1, trivial=False, phase="executed-on-feasible-path", detail=ob.meta.get("detail"))
+                if not ob.got:
+                    vm, dtm, mm, _ = solve(list(ex.assume) + list(ex.low.side) + ex.path_constraints(), timeout_ms, want_model=True)
+                    mv = model_values(mm, names + ["EPS"]) if mm is not None else {}
+                    rec["model"] = {k: str(val) for k, val in mv.items()}
+                    rec["model_float"] = {k: float(val) for k, val in mv.items()}
+                recs.append(rec)
+                continue
             if ob.kind == "deriv":
                 y, wrt = ob.want
                 if isinstance(y, list):
@@ -300,6 +335,8 @@ def replay_obligation(h, mods, cfg, values, obl_name, rtol=1e-6):
     if not obs:
         return dict(confirmed=False, detail="obligation not produced on the concrete path")
     ob = obs[0]
+    if ob.kind == "fact":
+        return dict(confirmed=not ob.got, detail=ob.meta.get("detail"))
     if ob.kind == "equal":
         a, b = _f(ob.got), _f(ob.want)
         bad = not (abs(a - b) <= 1e-10 * (1 + abs(a) + abs(b)))
